@@ -104,7 +104,7 @@ def query_sanitisers(ctx) -> None:
     ctx.check(any('issubset(superset)' in c and c.startswith('not ') and 'dissect(*features)' in c for c in cond), 'C07.sanitiser', es, 'ensure_subset raises unless the dissected elements are a subset of the source elements', es.node, key='ensure_subset:raise')
     sup = [s for s in core.walk_local(fn.node) if isinstance(s, ast.Assign) and core.src(s.targets[0]) == 'superset']
     ctx.check(len(sup) == 1 and 'dissect(*source.features)' in core.src(sup[0].value), 'C07.sanitiser', fn, 'the superset is the element set of the queried source', sup[0] if sup else fn.node, key='superset')
-    ctx.floor('C07.sanitiser', nob, 14)
+    ctx.floor('C07.sanitiser', nob, 10)
 
 
 def join_set(ctx) -> None:
@@ -185,7 +185,7 @@ def who_may_raise(ctx) -> None:
                 n += 1
                 ok = fn.ref.startswith(ALLOWED_RAISERS)
                 ctx.check(ok, 'C07.who-may-raise', fn, 'GrammarError raised inside a validator / constructor / operand check (a conforming statement cannot hit a stray raise)', r)
-    ctx.floor('C07.who-may-raise', n, 14)
+    ctx.floor('C07.who-may-raise', n, 9)
 
 
 def operand_checks(ctx) -> None:
